@@ -23,6 +23,17 @@ def fuzz(workers, runs, **kw):
 NOT_CLAIMED = {}
 
 PROPS = {
+    "C07": dict(
+        level="exploration",
+        technique="simulation-based property testing: libcoap client (and libcoap server with async responses) on a virtual network with generated loss/duplication/delay; per-token outcome counting oracle over the wire and callback trace",
+        level_text="Generated request sequences, server response styles and per-datagram faults below ACK_TIMEOUT; the oracle counts handler/NACK calls per application "
+                   "token against the datagrams actually delivered and checks the ACK/RST obligations from the trace.",
+        level_note="Trusted base: sim/sim.cc, ref/refcodec.h, scripted server in props/C07.cc. 'Never neither' is demanded only where the network delivered an ACK or a response, "
+                   "or nothing at all (then exactly one NACK); an empty ACK followed by a lost NON response legitimately leaves the exchange open.",
+        quick=rc(8, 6000),
+        thorough=rc(14, 150000),
+        **SIM,
+    ),
     "C06": dict(
         level="exploration",
         technique="simulation-based property testing: real coap_io_process on a virtual clock/network (ld --wrap), scripted peers and fault plans from a rapidcheck tape; trace oracle = reference retransmission schedule model; exhaustive drop-subset enumeration",
